@@ -1244,8 +1244,10 @@ func TestCheck(t *testing.T) {
 	rec.Assume("round-trip oracle: signature and parameter tree rendered from the generated ABI model (explicit-width types only), not from the library's parse of it")
 	rec.Assume("schema oracle: analyse() — generic-JSON analyser for the inconsistencies the property names (array without items; member position missing, colliding, out of range; JSON type definitely at odds with details.type at the top level); it returns 'nothing provable' for every shape it does not understand")
 	rec.Assume("not asserted: alias spellings in the stand-alone helper; preservation of internalType / stateMutability / payable / constant / anonymous; JSON type of nested members; 'integer' for address or fixed and 'number' for integer types (open readings); nil entries in a params list")
+	rec.Assume("kind convseq (histories): a \"$ref\" to another document (identifier-like, not a fragment, not the parameter's own name, not an existing file) cannot be resolved when a definition is converted on its own, so such a conversion must fail at every position of a history; names carry a per-case tag so that no two cases share a name")
 	kABI := evid.NewKind(rec, "abi", judgeABI)
 	kSchema := evid.NewKind(rec, "schema", judgeSchema).DeclareEach()
+	m := moreKinds(rec, true)
 	rec.Corpus(t)
 
 	rec.Rapid(t, "abi", rec.N(1500, 15000), func(rt *rapid.T) {
@@ -1277,6 +1279,13 @@ func TestCheck(t *testing.T) {
 			}
 		}
 		kABI.Check(rt, c, s.tupleInTuple || s.tupleIn2D, cl...)
+		if s.anyTuple {
+			m.cABI.offer(c)
+			m.nShared++
+			if m.nShared%5 == 0 {
+				m.kShared.Check(rt, SharedCase{ABI: c.ABI, Workers: 6}, s.tupleInTuple || s.tupleIn2D, "shared:one-definition-many-goroutines")
+			}
+		}
 	})
 
 	rec.Rapid(t, "schema-mutants", rec.N(4000, 30000), func(rt *rapid.T) {
@@ -1309,6 +1318,9 @@ func TestCheck(t *testing.T) {
 		}
 		cl = append(cl, schemaClasses("mutant", o, meta)...)
 		kSchema.Check(rt, SchemaCase{Target: target, Name: encStr(name), Schema: encStr(text)}, meta, cl...)
+		if meta {
+			m.cSchema.offer(SchemaCase{Target: target, Name: encStr(name), Schema: encStr(text)})
+		}
 	})
 
 	rec.Rapid(t, "schema-wellformed", rec.N(300, 3000), func(rt *rapid.T) {
@@ -1362,6 +1374,44 @@ func TestCheck(t *testing.T) {
 		meta := passesMeta(name, text)
 		kSchema.Check(rt, SchemaCase{Target: target, Name: encStr(name), Schema: encStr(text)}, meta, append([]string{"schema:arbitrary"}, schemaClasses("arbitrary", o, meta)...)...)
 	})
+
+	// histories of conversions whose definitions share names / refer to one another's names
+	rec.Rapid(t, "convseq", rec.N(1500, 12000), func(rt *rapid.T) {
+		c, nt, cl := genConvSeq(rt)
+		m.kConvSeq.Check(rt, c, nt, cl...)
+		m.cConvSeq.offer(c)
+	})
+
+	// independent cases judged from 8 goroutines at once (state shared between conversions)
+	m.cSchema.run(t, 8, 3, 64)
+	m.cABI.run(t, 8, 2, 32)
+	m.cConvSeq.run(t, 8, 2, 32)
+}
+
+// more holds the kinds for histories and concurrency (registered in TestReplay too).
+type more struct {
+	kConvSeq *evid.Kind[ConvSeqCase]
+	kShared  *evid.Kind[SharedCase]
+	cSchema  *collector[SchemaCase]
+	cABI     *collector[ABICase]
+	cConvSeq *collector[ConvSeqCase]
+	nShared  int
+}
+
+func moreKinds(rec *evid.Recorder, on bool) *more {
+	max := func(n int) int {
+		if on {
+			return n
+		}
+		return 0
+	}
+	return &more{
+		kConvSeq: evid.NewKind(rec, "convseq", judgeConvSeq).DeclareEach(),
+		kShared:  evid.NewKind(rec, "shared", judgeShared).DeclareEach(),
+		cSchema:  newCollector(rec, "concurrent-schema", judgeSchema, max(256)),
+		cABI:     newCollector(rec, "concurrent-abi", judgeABI, max(96)),
+		cConvSeq: newCollector(rec, "concurrent-convseq", judgeConvSeq, max(64)),
+	}
 }
 
 func schemaClasses(src string, o schemaOutcome, meta bool) []string {
@@ -1389,6 +1439,7 @@ func TestReplay(t *testing.T) {
 	rec := evid.Start("C20", rule)
 	evid.NewKind(rec, "abi", judgeABI)
 	evid.NewKind(rec, "schema", judgeSchema).DeclareEach()
+	moreKinds(rec, false)
 	rec.Replay(t)
 }
 
